@@ -108,6 +108,13 @@ def base_for(kind, rng):
         sp['om'][G.pk('A', 'A')] = {'t': 'SS'}
     if kind in ('permutation', 'rescale') and rng.random() < 0.6:
         G.add_cross_omegas(sp, rng, amp=(0.1, 0.6))
+    if kind == 'rescale' and rng.random() < 0.4:
+        # soft-core fluids (no hard core anywhere: LennardJones / WCA closed without the flag): the only energy scales are epsilon and kT
+        for key in sp['pot']:
+            sp['pot'][key] = {'t': str(rng.choice(['LJ', 'LJ', 'WCA'])), 'eps': float(rng.uniform(0.15, 0.5))}
+            sp['clo'][key] = {'t': str(rng.choice(['PY', 'HNC'])), 'hc': False}
+        sp['kT'] = float(rng.choice([1.6, 0.8, 2.5, 1.0]))
+        sp['soft'] = True
     if kind in ('permutation', 'rescale'):
         # contact distances given explicitly in some potentials (equal to or one grid step above the additive value): gen.build may then
         # complete the assigned object in place through the reversed key
@@ -138,11 +145,15 @@ def related(kind, sp, rng):
         return sp2, {t: t for t in perm}, 1.0, 'types %s -> %s' % (sp['types'], perm)
     if kind == 'rescale':
         lam = float(10 ** rng.uniform(-1, 1)) if rng.random() < 0.7 else int(rng.choice([2, 3, 5]))
+        if sp.get('soft') and rng.random() < 0.6:
+            lam = float(rng.choice([1e5, 1e6, 1e-5, 3e7]))         # the same fluid in other energy units (J/mol instead of kJ/mol ... K instead of reduced units)
         sp2 = copy.deepcopy(sp)
         sp2['kT'] = sp['kT'] * lam            # stays a Python int when kT and the factor are ints
         for ps in sp2['pot'].values():
             if 'eps' in ps:
                 ps['eps'] = ps['eps'] * lam
+            if ps['t'] in ('HS', 'HCLJ', 'EXP'):
+                ps['hv'] = ps.get('hv', 1e6) * lam          # the overlap value is an energy parameter like any other
         return sp2, {t: t for t in sp['types']}, lam, 'all epsilon and kT x %.4g' % lam
     if kind == 'split_monatomic':
         frac = float(10 ** rng.uniform(-8, np.log10(0.95))) if rng.random() < 0.5 else float(rng.uniform(0.05, 0.95))
